@@ -65,10 +65,11 @@ func TestCrashImages(t *testing.T) {
 		snap := func(what, class string, lo, hi int) {
 			d := scratch.Dir("img")
 			before := dirStamp(e.dir)
-			if err := copyDir(e.dir, d); err != nil {
-				infra(t, "copy image: %v", err)
+			cerr := copyDir(e.dir, d)
+			if cerr != nil && !os.IsNotExist(cerr) {
+				infra(t, "copy image: %v", cerr)
 			}
-			if dirStamp(e.dir) != before {
+			if cerr != nil || dirStamp(e.dir) != before {
 				// a background leveldb compaction wrote during the copy: not a state a crash of
 				// the writer at this boundary would leave; drop the image
 				unstable++
@@ -155,7 +156,6 @@ func TestCrashImages(t *testing.T) {
 				snap(fmt.Sprintf("after the rollback following commit %d", committed), "commit-unflushed", lastFlushed, committed)
 			}
 		}
-		dbgDump(e)
 		e.checkCommitted("live database at the end of the workload")
 		pool := e.pool
 		// a fresh block for the write on each image
